@@ -59,7 +59,7 @@ LEVEL_TEXT = ('Machine-checked theorems about the program regenerated from src/p
               'internally, tweens and view derivers nest in list order with an explicit tween list winning; plus, on the reference '
               'model, cycle_iff_error in both directions, tween histories, predicate directives, the default deriver order '
               '(secured_view first) and, after any add_view_deriver calls, every deriver outside mapped_view (user callable innermost); the regenerated argument processing of add_view_deriver / _add_tween equals the model and '
-              'feeds the judged scenarios end to end (C18_gen_derivers_scenario_judged, C18_gen_tweens_history_add), likewise the predicate directive chain (C18_gen_pred_chain_is_spec, C18_gen_preds_scenario_judged); PredicateList.make regenerated and proved to create (= evaluate) the predicates in an order honouring every weighs_more_than/weighs_less_than constraint (C18_gen_make_order_respects); end-to-end composition for derivers (C18_derivers_end_to_end) and the batch/include rule stated in Coq with the history judge on the effective history (C18_batch_flush_spec, C18_batch_history_judged); the executable wire '
+              'feeds the judged scenarios end to end (C18_gen_derivers_scenario_judged, C18_gen_tweens_history_add), likewise the predicate directive chain (C18_gen_pred_chain_is_spec, C18_gen_preds_scenario_judged); PredicateList.make regenerated and proved to create (= evaluate) the predicates in an order honouring every weighs_more_than/weighs_less_than constraint (C18_gen_make_order_respects); end-to-end compositions for derivers and predicates (C18_derivers_end_to_end, C18_preds_end_to_end) and the batch/include rule stated in Coq with the history judge on the effective history (C18_batch_flush_spec, C18_batch_history_judged); the executable wire '
               'judges accept every answer of the model (C18_wire_*_judged). Ties: generated = model theorems (no shape pins on the translated functions), regenerated '
               'constants, 30 shape pins + 4 masked pins on the untranslated functions / statements, a structural fact on setup_registry, '
               'differential run with the Coq judge on the implementation.')
